@@ -814,7 +814,15 @@ def check_step(cx, variant):
   act0 = np.array(d.act)
   d2 = lib.copy_data(m, d)
   lib.warnings()
-  lib.mj_step(m, d2)
+  try:
+    lib.mj_step(m, d2)
+  except Exception as e:
+    if 'diagonal element too small' in str(e):
+      # singular inertia (modelgen can put a hinge and a ball joint on the same anchor): LU of M - h*dF/dv fails in
+      # the implicit integrators whatever the actuators do; not an actuation question
+      cx.labels.add('step:singular-inertia(skipped)')
+      return
+    raise
   act1 = np.array(d2.act)
   w = lib.warnings()
   if w or not np.all(np.isfinite(np.array(d2.qpos))) or d2.time <= d.time:
@@ -1048,7 +1056,15 @@ def main(ck):
 
 
 def replay(ck, body):
-  raise NotImplementedError
+  """./verif C27 --replay <violation file>: re-runs the recorded (model, state seed) case outside Hypothesis."""
+  lib = ck.lib('rel')
+  case = body['case']
+  if 'case' in case:
+    gmj, seed = case['case']
+    gm = gen_act.ActModel.from_json(gmj)
+    run_case(ck, lib, gm, int(seed))
+  else:
+    raise Violation('replay file has no generated case (finding probes carry only xml + seed): %s' % list(case))
 
 
 LEVEL = 'exploration'
